@@ -2,7 +2,9 @@
 synctest bubble (harness/c01), traces validated against the property layer of Speaker.tla."""
 import vpcore as v
 
-GROUPS = ["ebgp3", "mixed", "rr", "addpath"]
+GROUPS = ["ebgp3", "mixed", "rr", "addpath", "rs"]
+# route-server clients live in their own table: the global-table oracles do not apply to that group
+RS_SKIP = {"C02_LocRibExact", "C02_BestStream", "C02_Lookups", "C15_LocRibAsIfFresh"}
 
 TRACE_CFG = """SPECIFICATION TraceSpec
 CONSTANTS
@@ -67,8 +69,8 @@ def design_mech(run, thorough):
     if run.replay:
         return
     for g in GROUPS:
-        if g == "addpath":
-            continue        # the mechanism model has no ADD-PATH bookkeeping
+        if g in ("addpath", "rs"):
+            continue        # the mechanism model has no ADD-PATH bookkeeping / route-server tables
         cfg = "MCSpeakerMech_%s_run.cfg" % g
         v.write_cfg(run.sc, cfg, MECH_CFG % {"g": g, "pfx": '{"x1"}', "n": 6 if thorough else 5})
         res = v.tlc(run.sc, "SpeakerMech", cfg, timeout=2400, coverage=thorough)
@@ -82,12 +84,15 @@ def run_speaker(run, invs, kf_invs=None, design=design_mech, policy=False):
     num = 25 if not thorough else 200
     steps = 14 if not thorough else 18
     for i, g in enumerate(GROUPS):
+        if policy and g == "rs":
+            continue        # the closed policy family is assigned to the global table
         behs = run.replay_behaviours(g) if run.replay else gen(run, g, num, run.seed * 100 + i, steps, policy)
         if not behs:
             continue
         traces = run.execute("c01", "pkg/server", "^TestVerifC01$", behs, tag="speaker-" + g)
         cfg = "SpeakerTrace_%s_%s.cfg" % (run.prop, g)
-        v.write_cfg(run.sc, cfg, TRACE_CFG % {"g": g, "invs": "\n".join("  " + x for x in invs)})
+        ginvs = [x for x in invs if not (g == "rs" and x in RS_SKIP)]
+        v.write_cfg(run.sc, cfg, TRACE_CFG % {"g": g, "invs": "\n".join("  " + x for x in ginvs)})
         kcfg = None
         if kf_invs:
             kcfg = "SpeakerKF_%s_%s.cfg" % (run.prop, g)
